@@ -108,6 +108,17 @@ partial def loop (h : IO.FS.Stream) (s : S) : IO Unit := do
     let s := finalize s
     IO.println s!"m_tickend {sameData s.mem s.mem0}"
     loop h s
+  | ["inv", _, _, speed, count0, pos0, _, _, _, present, lp, slp, is16, dnull, lps, lpe, sus, sue, _, _] =>
+    let st : InvState := { speed := speed.toNat?.getD 0, count := count0.toInt?.getD 0, pos := pos0.toInt?.getD 0 }
+    let x : Option InvSample := if b present then
+        some { loop := b lp, sloop := b slp, is16 := b is16, dataNull := b dnull, lps := lps.toInt?.getD 0,
+               lpe := lpe.toInt?.getD 0, sus := sus.toInt?.getD 0, sue := sue.toInt?.getD 0 }
+      else none
+    let sh (r : InvState × Option Int) : String :=
+      s!"{r.1.count}:{r.1.pos}:" ++ (match r.2 with | some i => toString i | none => "-")
+    let tbl := Xmp.Gen.DataWriters.invloopTable
+    IO.println s!"m_inv {sh (invloopStep tbl false st x)} {sh (invloopStep tbl true st x)}"
+    loop h s
   | "skel_begin" :: _ => loop h {}
   | _ => loop h s
 
